@@ -4,43 +4,45 @@ import json, os, sys
 HERE = os.path.dirname(os.path.dirname(os.path.abspath(__file__)))
 props = [json.loads(l)["id"] for l in open(os.path.join(HERE, "properties.jsonl"))]
 
-CLAIMED = {
- "C03": dict(
-   text="Lean 4 theorems (kernel-checked, no sorry, standard axioms) over a byte-level model of the writer and of every "
-        "reader entry point: un-escaping inverts escaping for every byte string, the escaped alphabet, the spec's own "
-        "un-escape relation, layout and date round trip for every valid date; the model is tied to /repo on every run "
-        "by a function-level differential check (exhaustive single bytes, byte pairs, boundary dates, foreign contents) "
-        "and the Lean predicate C03.Holds is evaluated on everything the implementation writes.",
-   note="Trusted: Lean kernel + propext/Classical.choice/Quot.sound; the hand-written model of urllib quote/unquote, "
-        "text-mode decoding and strptime/strftime (validated by the correspondence only); the Python harness. "
-        "Outside the modelled domain: non-ASCII digits in dates, percent-decoded values that are not UTF-8.",
-   ref="DESIGN.md §6 C03"),
- "C10": dict(
-   text="Lean 4 theorems: the seconds arithmetic of the model of older_than agrees with an independent day-by-day calendar "
-        "(lexicographic order, prevDay) for every DAYS, current time and date; boundary kept, one second older purged, "
-        "future kept, antitone in DAYS, OverflowError exactly when now-DAYS is unrepresentable; only the first DeletionDate "
-        "line counts. Tied to /repo by an exhaustive boundary-grid differential check of older_than and the date parser, "
-        "with an independent integer-arithmetic oracle on the implementation.",
-   note="Trusted: Lean kernel + standard axioms; the model of datetime/timedelta/strptime; the harness.",
-   ref="DESIGN.md §6 C10"),
- "C12": dict(
-   text="Lean 4 theorems: the greedy non-backtracking matcher that mirrors fnmatch.translate's regular expression decides "
-        "a declarative matching relation for every pattern and string; the parsed pattern never has adjacent stars; "
-        "literal patterns match only themselves; subject = full path iff the pattern starts with '/'. Tied to /repo by an "
-        "exhaustive differential check of Filter.matches over small alphabets plus random non-ASCII cases.",
-   note="Trusted: Lean kernel + standard axioms; the model of fnmatch.translate and of Python's re semantics for the "
-        "generated expressions (validated exhaustively on small alphabets only); the harness.",
-   ref="DESIGN.md §6 C12"),
- "C13": dict(
-   text="Lean 4 theorems: the model of parse_indexes accepts a reply iff it denotes (independent relational grammar) indices "
-        "all within the list, and returns exactly those; the scope test is a component-boundary prefix test on normalised "
-        "paths; the offered list is a sorted permutation for every --sort mode. Tied to /repo by exhaustive differential "
-        "checks (all replies up to length 4/5 over a 10-symbol alphabet, path pairs, random entry lists) with an "
-        "independent regex-grammar oracle on the implementation.",
-   note="Trusted: Lean kernel + standard axioms; the model of int(), str.split, sorted(); the harness. Non-ASCII replies "
-        "are outside the modelled domain.",
-   ref="DESIGN.md §6 C13"),
+import importlib, sys
+sys.path.insert(0, HERE)
+
+TEXT = {
+ "C01": "Theorems (Lean 4, kernel-checked): the resolved-layer core of trash-put (persist the info file under a free name, move, clean up) — on success the whole subtree sits under files/N next to N.trashinfo and is gone from its place, both names were free, nothing else changed; on failure nothing changed; a refused entry leaves nothing behind; the dot test and normpath agree on the last component. Tied to /repo by world-level differential runs of the real trash-put (final state, exit status, diagnostics) and the Lean predicate C01.Holds evaluated on every implementation run.",
+ "C02": "Theorems: restore core after put core is the identity on the entry (every node, bytes, link targets, modes, mtimes) and on every other path but the mtimes of directories whose entry lists changed; what put writes is read back exactly; the location is in scope of its directory and ancestors. Tied to /repo by put->noise->restore pipelines over byte-class names, kinds, layouts, sort modes and restore origins.",
+ "C03": "Theorems over a byte-level model of the writer and of every reader entry point: un-escaping inverts escaping for every byte string, the escaped alphabet, the spec's own un-escape relation, layout and date round trip for every valid date. Tied to /repo by an exhaustive function-level differential check (single bytes, byte pairs, boundary dates, foreign contents); C03.Holds is evaluated on everything the implementation writes.",
+ "C04": "Theorems: a successful put takes two names that were free and frames every other payload and info file; two successive puts own distinct names and both payloads stay whole; move-into-directory is unreachable when the destination is free; the first 100 suffixes are distinct. Tied to /repo by world runs over trash directories pre-populated with up to 120 colliding names of every kind, checking every previously trashed entry byte for byte.",
+ "C05": "Theorems: every state a kill can leave behind while the put core runs (before each call, and the final one) keeps the entry complete at its origin or under files/N, and shows a payload only next to its complete .trashinfo; atomic_write's intermediate states are absent/empty/complete. Tied to /repo by recording the sandbox before every mutating call of real runs, comparing the sequence with the model's and evaluating C05.Holds on each state; real kills in the thorough tier.",
+ "C06": "Theorems: without --overwrite any existing destination (lexists) makes the restore fail before any call, under every fault oracle; a multi-index selection stops there; the command exits 1; with --overwrite a non-directory payload replaces an existing regular file. Tied to /repo by restore worlds with destinations of every kind.",
+ "C07": "Theorems: home path from the environment (empty XDG_DATA_HOME = unset), candidate order, gates, rejected candidates are left untouched, created directories are 0700, the lexical volume ascent returns the device root on plain canonical paths. Tied to /repo by world runs over the configuration lattice with an independent device-level table (C07.expected) as oracle.",
+ "C08": "Theorems: trash-put's security check rejects $topdir/.Trash/$uid exactly when $topdir/.Trash is a symlink, not a directory or not sticky; the scanner of list/empty/rm and trash-restore never yield it then; trash-list reports it. Tied to /repo by runs of all five commands on worlds with every .Trash state and a populated .Trash/$uid.",
+ "C09": "Theorems: trash-list is a function of the bag; the put core adds exactly one element; purge and restore cores remove exactly the selected one (per-command refinement steps). The composition over whole histories is validated: seeded histories, after every step listing = Effects.bagLines of the on-disk state and model transition = implementation transition.",
+ "C10": "Theorems: the model of older_than agrees with an independent day-by-day calendar for every DAYS, current time and date; boundary kept, one second older purged, future kept, antitone in DAYS; only the first DeletionDate line counts. Tied to /repo by an exhaustive boundary-grid differential check and by trash-empty world runs whose effects are checked against ground-truth dates.",
+ "C11": "Theorems (every fault oracle): rmtree / remove_file2 / remove_file_if_exists / remove_file change no path outside the subtree they are given; a symlink payload is unlinked; the payload path of an accepted info name lies under files/. Tied to /repo by trash-rm / trash-empty runs on trash contents full of symlinks to sentinels, checking every path outside files/ and info/.",
+ "C12": "Theorems: the greedy matcher mirroring fnmatch.translate decides a declarative matching relation for every pattern and string; literal patterns match only themselves; subject = full path iff the pattern starts with '/'. Tied to /repo by an exhaustive differential check of Filter.matches over small alphabets and by trash-rm world runs.",
+ "C13": "Theorems: parse_indexes accepts a reply iff it denotes (independent relational grammar) indices all within the list and returns exactly those; the scope test is a component-boundary prefix test; the offered list is a sorted permutation for every --sort mode. Tied to /repo by exhaustive function-level checks and by trash-restore world runs (listing and effects against ground truth).",
+ "C14": "Theorems: with --dry-run, and in interactive mode with a reply not beginning with y/Y or end of input, trash-empty issues no file-system call for every world, DAYS and oracle. Tied to /repo by world runs, an exhaustive check of parse_reply, and dry-run vs real-run differential runs on copies.",
+ "C15": "Theorems: while one entry is purged the info file is untouched as long as the payload root exists (every oracle); re-running the purge completes it; a same-volume restore keeps the entry complete in the trash or at its destination in every intermediate state. Tied to /repo by recorded pre-call states of restore/empty/rm runs, and kill-and-rerun runs.",
+ "C16": "Theorems (every fault oracle): every argument is handled in order unless the run aborts; exit 0 iff no argument failed, 74 otherwise, 1 on abort; every failed argument is named on stderr; -f forgives only missing paths, -i skips only on a non-y reply. Independence of unrelated arguments is stated in full but validated differentially (each argument alone on a copy).",
+ "C17": "Theorems (arbitrary fault oracle): a hopeless errno ends the name search at once; the search is bounded; whatever the answers to create/write/close, success means wholly trashed and failure means nothing left behind (rename and clean-up unlink not faulted). Tied to /repo by exhaustive single-fault sweeps (every call x 14 errnos), persistent faults, stat-class faults, pairs in thorough.",
+ "C18": "Theorems: normpath never leaves a trailing slash; the last component survives any number of trailing slashes; kernel resolution does not follow a final symlink; the core moves the link node and frames its target. Tied to /repo by world runs biased to symlink arguments with the C18 oracle (same link in the trash, target untouched, recorded location).",
+ "C19": "Theorems: the readers are item-wise maps over the sorted name list; item-wise readers are insensitive to interleaved items that yield nothing; the sort is total; malformed items issue no call in trash-rm / trash-empty DAYS. Tied to /repo by worlds with 14 kinds of malformed neighbours, each also run with the neighbours deleted.",
+ "C20": "Theorems: list, restore, rm and empty factor through the same two parsers and are handed the same base directory for every kind of trash directory. Tied to /repo by an exhaustive four-way differential over content templates x trash-dir kinds.",
 }
+
+CLAIMED = {}
+for pid in TEXT:
+    if not os.path.exists(os.path.join(HERE, "lean", "TrashVerif", "TrashVerif", "Proofs", pid + ".lean")):
+        continue
+    if not os.path.exists(os.path.join(HERE, "harness", "props", pid.lower() + ".py")):
+        continue
+    mod = importlib.import_module("harness.props." + pid.lower())
+    note = getattr(mod, "LEVEL_NOTE", "")
+    CLAIMED[pid] = dict(text=TEXT[pid],
+                        note="Trusted: Lean 4 kernel + axioms propext/Classical.choice/Quot.sound; the hand-written model (Model/*.lean) "
+                             "of the Python code and of the kernel/stdlib behaviour it relies on, validated by the correspondence only; "
+                             "the Python harness and the line-protocol driver. " + note,
+                        ref="DESIGN.md §6 " + pid)
 
 checks = []
 for p in props:
